@@ -44,7 +44,7 @@ func sessionEntries(p *Prog) []*ssa.Function {
 	pool := p.Global(p.Slog, "poolPrintCtx")
 	var out []*ssa.Function
 	for _, fn := range p.RepoFuncs() {
-		if strings.HasPrefix(nm(fn), "init") {
+		if p.startupOnly(fn) {
 			continue
 		}
 		for _, cs := range callsIn(fn) {
@@ -412,7 +412,7 @@ func c09Globals(c *Ctx, p *Prog, m *Model) {
 	pa := p.Global(p.Slog, "poolAttrs")
 	for _, fn := range fns {
 		for _, cs := range callsIn(fn) {
-			if cal := calleeOf(cs); cal != nil && cal.String() == "(*sync.Pool).Put" && cs.Common().Args[0] == ssa.Value(pa) && !strings.HasPrefix(nm(fn), "init") {
+			if cal := calleeOf(cs); cal != nil && cal.String() == "(*sync.Pool).Put" && cs.Common().Args[0] == ssa.Value(pa) && !p.startupOnly(fn) {
 				v := strip(cs.Common().Args[1])
 				ok := false
 				for _, s := range sources(v) {
